@@ -50,9 +50,9 @@ FUNCS = {
     "shi": ("z", "m", "C20"), "chi": ("z", "m", "C20"), "fresnels": ("z", "m", "C20"), "fresnelc": ("z", "m", "C20"),
     "gammainc": ("zp", "m", "C20"), "betainc": ("ppUU", "m", "C20"),
     # ---- Bessel etc (C21)
-    "besselj": ("Nz", "m", "C21"), "bessely": ("Nz", "m", "C21"), "besseli": ("Nz", "m", "C21"), "besselk": ("Nz", "m", "C21"),
-    "hankel1": ("Nz", "m", "C21"), "hankel2": ("Nz", "m", "C21"), "airyai": ("z", "m", "C21"), "airybi": ("z", "m", "C21"),
-    "struveh": ("Nz", "m", "C21"), "struvel": ("Nz", "m", "C21"), "ber": ("Np", "m", "C21"), "bei": ("Np", "m", "C21"),
+    "besselj": ("vz", "m", "C21"), "bessely": ("vz", "m", "C21"), "besseli": ("vz", "m", "C21"), "besselk": ("vz", "m", "C21"),
+    "hankel1": ("vz", "m", "C21"), "hankel2": ("vz", "m", "C21"), "airyai": ("z", "m", "C21"), "airybi": ("z", "m", "C21"),
+    "struveh": ("vz", "m", "C21"), "struvel": ("vz", "m", "C21"), "ber": ("Np", "m", "C21"), "bei": ("Np", "m", "C21"),
     "ker": ("Np", "m", "C21"), "kei": ("Np", "m", "C21"), "scorergi": ("z", "s", "C21"), "scorerhi": ("z", "s", "C21"),
     "coulombf": ("nxp", "s", "C21"), "coulombg": ("nxp", "s", "C21"), "angerj": ("xz", "s", "C21"),
     "webere": ("xz", "s", "C21"), "lommels1": ("xxp", "s", "C21"), "lommels2": ("xxp", "s", "C21"),
@@ -62,8 +62,8 @@ FUNCS = {
     "hyp0f1": ("xz", "m", "C22"), "hyp1f1": ("xxz", "m", "C22"), "hyp1f2": ("xxxz", "m", "C22"),
     "hyp2f0": ("xxu", "m", "C22"), "hyp2f1": ("xxxu", "m", "C22"), "hyp2f2": ("xxxxz", "m", "C22"),
     "hyp2f3": ("xxxxxz", "m", "C22"), "hyp3f2": ("xxxxxu", "m", "C22"), "hyperu": ("xxp", "s", "C22"),
-    "whitm": ("xxp", "s", "C22"), "whitw": ("xxp", "s", "C22"), "legendre": ("nx", "m", "C22"),
-    "legenp": ("nnu", "m", "C22"), "legenq": ("nnu", "s", "C22"), "chebyt": ("nx", "m", "C22"), "chebyu": ("nx", "m", "C22"),
+    "whitm": ("xxp", "s", "C22"), "whitw": ("xxp", "s", "C22"), "legendre": ("Nx", "m", "C22"),
+    "legenp": ("Nnu", "m", "C22"), "legenq": ("nnu", "s", "C22"), "chebyt": ("nx", "m", "C22"), "chebyu": ("nx", "m", "C22"),
     "jacobi": ("nxxx", "m", "C22"), "gegenbauer": ("npx", "m", "C22"), "hermite": ("nz", "m", "C22"),
     "laguerre": ("nxz", "m", "C22"), "spherharm": ("nnxx", "s", "C22"), "pcfd": ("xz", "s", "C22"), "pcfu": ("xz", "s", "C22"),
     "pcfv": ("xx", "s", "C22"), "pcfw": ("xx", "s", "C22"), "appellf1": ("xxxxuu", "s", "C22"),
@@ -142,6 +142,19 @@ def gen_arg(d, letter, p, long_bits=0):
         return ["int", d.int(0, 12)]
     if letter == "N":
         return ["int", d.int(-6, 12)]
+    if letter == "v":
+        # order / degree of a Bessel-type function: integer, half-integer, integer +- 2^-k, or a general real
+        k = d.weighted([(4, "int"), (2, "half"), (3, "near"), (3, "real")])
+        n = d.int(-6, 12)
+        if k == "int":
+            return ["int", n]
+        if k == "half":
+            return ["mpf", J(exact.mk(1 if n < 0 else 0, 2 * abs(n) + 1, -1))]
+        if k == "near":
+            kk = d.choice([8, 18, 20, 30, 40, 60, 100]) if d.bool() else d.int(2, 2 * p)
+            m = (abs(n) << kk) + d.choice([1, -1]) if n else 1
+            return ["mpf", J(exact.mk(1 if n < 0 else 0, m, -kk))]
+        return ["mpf", J(real())]
     if letter == "k":
         return ["int", d.int(1, 8)]
     if letter == "j":
